@@ -1,0 +1,236 @@
+//go:build verif
+
+// Verification hooks (build tag verif) for C09: run the store-side part of an aggregate (or plain) InfluxQL select on
+// one shard exactly as the package's plan-level tests do (iterator_plan_test.go): parse + RewriteFields + processor
+// options + hint, shard.CreateCursor, NewChunkReader over the returned cursors, ChunkReader.Work - and hand back the
+// chunks the reader emits (partial results per cursor / series / tag set; the executor's upper aggregation stages are
+// not part of this). Thin wrapper, no behaviour of its own. Uses VerifShard of verif_export_c02.go.
+package engine
+
+import (
+	"context"
+	"fmt"
+	"math"
+	"strings"
+
+	"github.com/openGemini/openGemini/engine/executor"
+	"github.com/openGemini/openGemini/engine/hybridqp"
+	"github.com/openGemini/openGemini/lib/util/lifted/influx/influxql"
+	"github.com/openGemini/openGemini/lib/util/lifted/influx/query"
+)
+
+// VerifCell is one value of an emitted chunk row.
+type VerifCell struct {
+	Nil   bool
+	Type  influxql.DataType
+	I     int64
+	F     float64
+	B     bool
+	S     string
+	Time  int64 // the column's own time when the column carries times (selectors), else the row time
+	HasCT bool
+}
+
+// VerifAggRow is one row of an emitted chunk.
+type VerifAggRow struct {
+	Tags  map[string]string
+	Time  int64
+	Cells []VerifCell
+}
+
+type verifMapper struct {
+	fields map[string]influxql.DataType
+	dims   []string
+}
+
+func (m *verifMapper) FieldDimensions(_ *influxql.Measurement) (map[string]influxql.DataType, map[string]struct{}, *influxql.Schema, error) {
+	schema := &influxql.Schema{MinTime: math.MaxInt64, MaxTime: math.MinInt64}
+	fields := make(map[string]influxql.DataType)
+	dimensions := make(map[string]struct{})
+	for f, typ := range m.fields {
+		fields[f] = typ
+	}
+	for _, d := range m.dims {
+		dimensions[d] = struct{}{}
+	}
+	return fields, dimensions, schema, nil
+}
+
+func (m *verifMapper) MapType(_ *influxql.Measurement, field string) influxql.DataType {
+	if typ, ok := m.fields[field]; ok {
+		return typ
+	}
+	for _, d := range m.dims {
+		if d == field {
+			return influxql.Tag
+		}
+	}
+	return influxql.Unknown
+}
+
+func (m *verifMapper) MapTypeBatch(_ *influxql.Measurement, field map[string]*influxql.FieldNameSpace, _ *influxql.Schema) error {
+	for k := range field {
+		field[k].DataType = m.fields[k]
+	}
+	return nil
+}
+
+// VerifSelectInfo reports how the shard classified the statement.
+type VerifSelectInfo struct {
+	MatchPreAgg bool // executor.QuerySchema.MatchPreAgg (the statistics shortcut is eligible)
+	HasCall     bool
+	Columns     []string
+	Exprs       []string // the reader's output expressions, column by column
+}
+
+// Select runs `sql` (a single SELECT on one measurement; calls must be pre-aggregation capable ones - count, sum,
+// min, max, first, last - or plain field references) against the shard and returns the rows of every chunk the
+// ChunkReader emits, in emission order. fields / dims describe the measurement for RewriteFields.
+func (v *VerifShard) Select(sql string, fields map[string]influxql.DataType, dims []string) ([]VerifAggRow, *VerifSelectInfo, error) {
+	p := influxql.NewParser(strings.NewReader(sql))
+	defer p.Release()
+	st, err := p.ParseStatement()
+	if err != nil {
+		return nil, nil, err
+	}
+	stmt, ok := st.(*influxql.SelectStatement)
+	if !ok {
+		return nil, nil, fmt.Errorf("not a select statement")
+	}
+	mapper := &verifMapper{fields: fields, dims: dims}
+	if stmt, err = stmt.RewriteFields(mapper, true, false); err != nil {
+		return nil, nil, err
+	}
+	stmt.OmitTime = true
+	valuer := &influxql.NowValuer{Location: stmt.Location}
+	cond, tr, err := influxql.ConditionExpr(stmt.Condition, valuer)
+	if err != nil {
+		return nil, nil, err
+	}
+	stmt.Condition = cond
+	opt, err := query.NewProcessorOptionsStmt(stmt, query.SelectOptions{ChunkSize: 1024})
+	if err != nil {
+		return nil, nil, err
+	}
+	if err = hybridqp.VerifyHintStmt(stmt, &opt); err != nil {
+		return nil, nil, err
+	}
+	mst, ok := stmt.Sources[0].(*influxql.Measurement)
+	if !ok {
+		return nil, nil, fmt.Errorf("source is not a measurement")
+	}
+	opt.Name = mst.Name
+	opt.Sources = stmt.Sources
+	opt.StartTime = tr.MinTimeNano()
+	opt.EndTime = tr.MaxTimeNano()
+	qs := executor.NewQuerySchema(stmt.Fields, stmt.ColumnNames(), &opt, nil)
+	info := &VerifSelectInfo{MatchPreAgg: qs.MatchPreAgg(), HasCall: qs.HasCall(), Columns: stmt.ColumnNames()}
+
+	ctx := context.Background()
+	idx, err := v.sh.CreateCursor(ctx, qs)
+	if err != nil || idx == nil {
+		return nil, info, err
+	}
+	defer idx.Unref()
+	var keyCursors []interface{}
+	for _, cur := range idx.GetCursors() {
+		keyCursors = append(keyCursors, cur)
+	}
+
+	// the store-side plan below the shard exchange, built by the planner's own builder: series plan (nil when the
+	// statistics shortcut applies), then Reader + reader exchange; the LogicalReader derives its row type and
+	// expressions itself (PreAggInit for the shortcut, ForwardInit from the series plan otherwise)
+	builder := executor.NewLogicalPlanBuilderImpl(qs)
+	seriesPlan, err := builder.CreateSeriesPlan()
+	if err != nil {
+		return nil, info, err
+	}
+	mstPlan, err := builder.CreateMeasurementPlan(seriesPlan)
+	if err != nil {
+		return nil, info, err
+	}
+	var lr *executor.LogicalReader
+	for n := mstPlan; n != nil; {
+		if r, ok := n.(*executor.LogicalReader); ok {
+			lr = r
+			break
+		}
+		if len(n.Children()) == 0 {
+			break
+		}
+		n = n.Children()[0]
+	}
+	if lr == nil {
+		return nil, info, fmt.Errorf("no LogicalReader in the measurement plan")
+	}
+	lr.SetCursor(keyCursors)
+	proc, err := (&ChunkReader{}).Create(lr, &opt)
+	if err != nil {
+		return nil, info, err
+	}
+	reader := proc.(*ChunkReader)
+	defer func() { _ = reader.Release() }()
+	rt := lr.RowDataType()
+	var refs []influxql.VarRef
+	for _, op := range lr.RowExprOptions() {
+		refs = append(refs, op.Ref)
+		info.Exprs = append(info.Exprs, op.Expr.String())
+	}
+	out := executor.NewChunkPort(rt)
+	reader.GetOutputs()[0].Connect(out)
+	errc := make(chan error, 1)
+	go func() { errc <- reader.Work(ctx) }()
+	var rows []VerifAggRow
+	for ck := range out.State {
+		rows = append(rows, verifChunkRows(ck, refs)...)
+	}
+	if err := <-errc; err != nil {
+		return rows, info, err
+	}
+	return rows, info, nil
+}
+
+func verifChunkRows(ck executor.Chunk, refs []influxql.VarRef) []VerifAggRow {
+	n := ck.Len()
+	times := ck.Time()
+	tagIdx := ck.TagIndex()
+	tags := ck.Tags()
+	rows := make([]VerifAggRow, n)
+	for i := 0; i < n; i++ {
+		rows[i].Time = times[i]
+		for k := len(tagIdx) - 1; k >= 0; k-- {
+			if tagIdx[k] <= i {
+				rows[i].Tags = tags[k].KeyValues()
+				break
+			}
+		}
+		rows[i].Cells = make([]VerifCell, len(ck.Columns()))
+	}
+	for c, col := range ck.Columns() {
+		ct := col.ColumnTimes()
+		for i := 0; i < n; i++ {
+			cell := &rows[i].Cells[c]
+			cell.Type = refs[c].Type
+			cell.Time = rows[i].Time
+			if col.IsNilV2(i) {
+				cell.Nil = true
+				continue
+			}
+			j := col.GetValueIndexV2(i)
+			if len(ct) > j {
+				cell.Time, cell.HasCT = ct[j], true
+			}
+			switch refs[c].Type {
+			case influxql.Integer:
+				cell.I = col.IntegerValue(j)
+			case influxql.Float:
+				cell.F = col.FloatValue(j)
+			case influxql.Boolean:
+				cell.B = col.BooleanValue(j)
+			case influxql.String, influxql.Tag:
+				cell.S = col.StringValue(j)
+			}
+		}
+	}
+	return rows
+}
